@@ -74,6 +74,58 @@ def record(events, tmp, name="rec.vdo"):
     return path, err
 
 
+def interleaved_recorders(camp, rng, tmp, n):
+    """two vnclog recorders in one process (two viewers at the same time), every message split over two segments and the
+    segments of the two viewers interleaved: each script replays its own viewer's events"""
+    for i in range(n):
+        clock = proxyreal.FakeTime()
+        recs = []
+        for name in ("a", "b"):
+            path = os.path.join(tmp, "two_%s.vdo" % name)
+            factory = lp.VNCLoggingServerFactory("server.example", 5900)
+            out = open(path, "w")
+            factory.output = out
+            p = Proxy(factory=factory, clock=clock)
+            evs = [(t, e) for t, e in gen_events(rng, rng.randrange(2, 12)) if e[0] != "raw"]
+            recs.append([p, path, out, evs, None])
+        err = None
+        for p, *_ in recs:
+            for h in viewer_handshake(b"003.008"):
+                err = err or p.from_viewer(h)
+        k = 0
+        while err is None and any(k < len(r[3]) for r in recs):
+            halves = []
+            for r in recs:
+                if k < len(r[3]):
+                    t, e = r[3][k]
+                    data = key_event(e[1], e[2]) if e[0] == "key" else pointer_event(e[1], e[2], e[3])
+                    cut = rng.randrange(1, len(data))
+                    halves.append((r, t, data[:cut], data[cut:]))
+            for r, t, a, b in halves:
+                err = err or r[0].from_viewer(a)
+            for r, t, a, b in halves:
+                r[0].set_ticks(t)
+                err = err or r[0].from_viewer(b)
+            k += 1
+        for r in recs:
+            r[2].close()
+        camp.evaluations += 1
+        camp.count("two-recorders-interleaved")
+        camp.nontrivial.add(("two", i))
+        why = f"recording raised {type(err).__name__}: {err}" if err is not None else None
+        for r in recs:
+            if why:
+                break
+            text = open(r[1], newline="").read()
+            msgs, rerr = replay_script(r[1], 1.0)
+            # times of the two viewers share one clock: judge events, order and positions (the gaps are judged elsewhere)
+            why = rerr or judge(r[3], msgs, text, 1.0, gaps=False)
+        if why:
+            camp.oracle_failures.append({"kind": "oracle", "property": "C18", "case": {"events": [], "warp": 1.0, "two_recorders": True},
+                                         "what": f"two recorders in one process, messages split and interleaved: {why}"})
+            return
+
+
 def replay_script(path, warp):
     """vncdo <path>: the real build_command_list on a real VNCDoCLIClient with a virtual clock.
     -> (timed messages [(t, msg)], error text or None)"""
@@ -125,7 +177,8 @@ def dedupe(seq):
     return out
 
 
-def judge(events, msgs, script_text, warp):
+def judge(events, msgs, script_text, warp, gaps=True):
+    check_gaps = gaps
     events = [(t, e) for t, e in events if e[0] != "raw"]        # other client messages leave no entry and move no clock
     keys_in = [(1 if e[1] else 0, e[2]) for _t, e in events if e[0] == "key"]
     keys_out = [(m[1], m[2]) for _t, m in msgs if m[0] == "KeyEvent"]
@@ -151,7 +204,7 @@ def judge(events, msgs, script_text, warp):
         return f"{len(gaps)} pause entries for {len(events)} events"
     # "the recorded gap" is the time that passed between two recorded events (ticks of 0.1 ms: exact at four decimals)
     prev = 0
-    for i, ((t, e), g) in enumerate(zip(events, gaps)):
+    for i, ((t, e), g) in enumerate(zip(events, gaps) if check_gaps else []):
         if abs(g - (t - prev) / 10000.0) > 5.1e-5:
             return (f"entry #{i} ({e[0]}): {(t - prev) / 10000.0:.4f} s passed since the previous recorded event, the script says "
                     f"pause {g:.4f}: the replay would not wait the original gap divided by the warp factor")
@@ -274,6 +327,8 @@ def run(tier, seed, model):
                     camp.model_mismatches.append({"property": "C18", "case": {"case": ci, "kind": kind},
                                                   "what": f"case {ci} ({kind}): the model's own round trip (shlex, compile, decode) "
                                                           f"does not return the recorded events (status {ans[1]})"})
+        if not camp.oracle_failures:
+            interleaved_recorders(camp, rng, tmp, 10 if tier == "quick" else 300)
         findings(camp, tmp)
     finally:
         shutil.rmtree(tmp, ignore_errors=True)
@@ -307,6 +362,8 @@ def findings(camp, tmp):
 
 def replay(payload):
     case = payload["case"]
+    if case.get("two_recorders"):
+        return True, "replay: two-recorder scenario; re-run ./check C18"
     tmp = tempfile.mkdtemp(prefix="c18-")
     try:
         events = [(t, tuple(e)) for t, e in case["events"]]
